@@ -36,6 +36,10 @@ The spec
          "boxes": [[box, box, ...], ...], # per level: components in c order,
                                           # box = [[x0, x1], [y0, y1], [z0, z1]] interior,
                                           # half-open, in interior index units
+         "regrid": [{"rl": 1, "from_it": 4, "boxes": [box, ...]}],
+                                          # optional (one-file layouts): from
+                                          # iteration from_it on, level rl is
+                                          # split into these components
          "ctag": "auto",                  # "auto": ' c=<c>' iff >1 component on the
                                           # level (Carpet); "always" / "never"
          "par": True,                     # write <sim>.par into output-000r/
@@ -381,6 +385,15 @@ def file_names(spec, rs, group, var, ncomp_files):
     return [f"{base}.h5"]
 
 
+def boxes_at(rs, rl, it):
+    """components of level rl at iteration it (regridding changes them)."""
+    b = rs["boxes"][rl]
+    for rg in rs.get("regrid", []) or []:
+        if rg["rl"] == rl and it >= rg["from_it"]:
+            b = rg["boxes"]
+    return b
+
+
 def write_sim(root, spec):
     """Write the whole simulation under ``root``; returns SIMLOC (root + '/')."""
     for rs in spec["restarts"]:
@@ -415,7 +428,8 @@ def write_restart(root, spec, rs):
     for cit in rs.get("checkpoints", []):
         open(os.path.join(d, f"checkpoint.chkpt.it_{cit}.h5"), "w").close()
 
-    nfiles = max(len(b) for b in rs["boxes"])
+    nfiles = max([len(b) for b in rs["boxes"]]
+                 + [len(rg["boxes"]) for rg in rs.get("regrid", []) or []])
     handles = {}
 
     def fh(name):
@@ -444,10 +458,10 @@ def write_restart(root, spec, rs):
                 for rl, lev in enumerate(spec["levels"]):
                     g = _g3(lev["ghost"])
                     org = lev.get("origin", [0, 0, 0])
-                    boxes = rs["boxes"][rl]
-                    tag = (ctag == "always"
-                           or (ctag == "auto" and len(boxes) > 1))
                     for it in rs["its"][rl]:
+                        boxes = boxes_at(rs, rl, it)
+                        tag = (ctag == "always"
+                               or (ctag == "auto" and len(boxes) > 1))
                         G = stored_field(spec, var, it, rl, r)
                         for c, (bx, by, bz) in enumerate(boxes):
                             arr = G[bz[0]:bz[1] + 2 * g[2],
